@@ -364,13 +364,14 @@ check("C22", "internal/accumulation",
 check("C23", "internal/zzverif/c23",
       rule="case = one history of 3..5 epochs of blocks through safrole.OuterUsedSafrole on the blockchain singleton (tiny parameters; 4-block histories with full parameters in every 100th thorough case): slot gaps 1, 2..4, to the first slot of the next epoch, exactly to the end of the submission window, more than an epoch; 1 in 40 blocks with a slot that does not advance; "
            "ticket extrinsics of 0..K envelopes with ring signatures of (validator, attempt) pairs not used before in the epoch, sorted by identifier; a quarter of the blocks carry one mutation (two neighbours swapped, an envelope duplicated, a ticket that is already in the accumulator, attempt N or above, a ticket in the epoch tail, a signer outside the ring). "
-           "A model of GP 6.2-6.34 decides acceptance and the posterior accumulator (E lowest of new + carried, reset at an epoch change), sealer sequence (outside-in of a full accumulator when the previous epoch's submission window had closed, unchanged inside an epoch, fallback keys otherwise), entropy and key sets; the accumulator must be strictly increasing and at most E long. The history continues from the model's state. distinct_nontrivial = distinct histories",
+           "A model of GP 6.2-6.34 decides acceptance and the posterior accumulator (E lowest of new + carried, reset at an epoch change), sealer sequence (outside-in of a full accumulator when the previous epoch's submission window had closed, unchanged inside an epoch, fallback keys otherwise), entropy and key sets; the accumulator must be strictly increasing and at most E long. Every second history continues from the slices the node itself holds, as a running node does (after an accepted block the posterior accumulator and sealer tickets as returned, after a rejected block the very slices handed in; every second block with spare capacity behind the accumulator), the others from fresh copies of the model's state. distinct_nontrivial = distinct histories",
       technique="reference-model monitor over generated block histories at the safrole STF boundary (blockchain singleton), ticket identifiers derived with the deterministic VRF stand-in",
       level_text="Every block of generated multi-epoch histories is decided by an independent model of the safrole equations and compared with the node's acceptance and posterior state; held = no divergence on what was explored.",
       note="Ring signatures, ticket identifiers and the entropy output come from the VRF stand-in (standin/vrf), which the harness also calls directly to make tickets; no cryptographic property is judged. The number of tickets per block is not judged against K (U-note in DESIGN §C23); validator sets without offenders.",
       shards=(8, 16), env={"JAM_FUZZ": "1"},
       floors={"any": {"blocks_accepted": 5000, "blocks_rejected": 800, "epoch_changes_with_ticket_sealers": 40, "epoch_changes_with_fallback_sealers": 100, "blocks_with_full_accumulator": 500, "blocks_where_tickets_were_pushed_out": 100,
-                      "rejected: not strictly increasing by identifier": 100, "rejected: ticket already in the accumulator": 30, "rejected: attempt out of range": 100, "rejected: tickets after the submission window": 30, "rejected: bad ring proof": 100, "histories_high_in_the_slot_range": 30}},
+                      "rejected: not strictly increasing by identifier": 100, "rejected: ticket already in the accumulator": 30, "rejected: attempt out of range": 100, "rejected: tickets after the submission window": 30, "rejected: bad ring proof": 100, "histories_high_in_the_slot_range": 30,
+                      "blocks_continuing_from_the_node's_own_slices": 2000, "rejected_blocks_whose_prior_slices_are_used_again": 300}},
       assumptions=[STANDIN_VRF])
 
 check("C26", "internal/zzverif/c26",
